@@ -160,6 +160,25 @@ def c04(res, c):
                 if i in tb:
                     sk.violation(res, f"{name}: an identifier occurs in a serialized token", f"{name}: identifier {i.hex()}", sk.show_case(c))
 
+    # the index as it is stored AFTER it has been used: every keyword searched (twice), then serialized again - what a server
+    # writes back, or ships to a replica, must expose as little as the freshly built index
+    try:
+        for w in (c["present"] + c["absent"]) * 2:
+            scheme.Search(edb, scheme.TokenGen(key, w))
+        blob_after = edb.serialize()
+    except Exception:
+        blob_after = b""
+    for w in long_kw:
+        if w in blob_after:
+            sk.violation(res, f"{name}: a stored keyword occurs in the index serialized after searches",
+                         f"{name}: keyword {w.hex()}", sk.show_case(c, w))
+            break
+    if name != "SSE2":
+        hits = [i for i in long_id if i in blob_after]
+        if hits:
+            sk.violation(res, f"{name}: stored identifiers occur in the index serialized after searches",
+                         f"{name} ({c['profile']}): {len(hits)} identifiers, e.g. {hits[0].hex()}", sk.show_case(c))
+
     def entries(e):
         if name == "DP17":
             n = scheme.config.param_identifier_cipher_len
